@@ -301,7 +301,6 @@ pub struct CrashScenario;
 fn allowed_features() -> gen::problem::Features {
     let mut allowed = gen::problem::Features::all();
     allowed.req_breaks = false;
-    allowed.relations = false;
     allowed
 }
 
@@ -318,8 +317,13 @@ pub fn make_base(seed: u64, tier: Tier) -> (CrashBase, gen::problem::Features) {
         // the limit must be hit by the injected stall only
         spec.clock_policy = *p.pick(&[sys::ClockPolicy::Fast, sys::ClockPolicy::Medium]);
     }
+    // user relations (derived from a first solve, see relgen): an interrupted run must keep the pinning as well
+    let mut problem = g.problem;
+    if g.features.relations {
+        crate::scen::relgen::augment(seed, &mut problem, &g.matrices);
+    }
     let base = CrashBase {
-        problem: g.problem,
+        problem,
         matrices: g.matrices,
         spec,
         max_generations: p.range(1, 8) as u64,
